@@ -1,13 +1,14 @@
+\* bounds fitted to a measured state count (the first choice - 16 x 7 x 8 x 5 settings - was ~500 M states and never finished)
 CONSTANTS
   MaxChunks = 1000
   Ladder <- LadderSeq
   MaxTlv = 65535
   SfiOffsets = FALSE
   Sizes <- SizesT
-  MaxLes = {1, 2, 3, 4, 5, 127, 128, 129, 192, 193, 255, 256, 257, 4096, 32768, 65536}
-  Caps = {0, 1, 2, 5, 100, 255, 256}
-  RejectOvers = {0, 256, 255, 192, 191, 128, 127, 100}
-  HdrNs = {0, 1, 2, 3, 4}
+  MaxLes = {1, 4, 5, 128, 193, 256, 257, 65536}
+  Caps = {0, 1, 100, 256}
+  RejectOvers = {0, 256, 255, 191, 100}
+  HdrNs = {0, 1, 3, 4}
   Policies = {"any", "max", "one"}
   SelSws = {"9000", "6A82", "6283", "6982"}
   Slack = {0, 7}
